@@ -308,7 +308,7 @@ func c13Run(c *mon.Ctx) {
 		}
 	}
 	// totality and serialisation for radii outside the distance claims
-	for _, m := range []float64{-1, -1e9, -0.001, -3.5, math.NaN(), math.Inf(1), 2 * piR, 1e12, 2.5e7, 40030174, 5e7, piR + 1} {
+	for _, m := range []float64{-1, -1e9, -0.001, -3.5, math.NaN(), math.Inf(1), 2 * piR, 1e12, 2.5e7, 40030174, 5e7, piR + 1, 1e19, -1e19, 9.3e18, 1e100, math.MaxFloat64, 1 << 53, 1<<53 + 2, 123456789012345680} {
 		for _, steps := range []int{-1, 0, 2, 3, 4, 64} {
 			c.SetCase(func() interface{} {
 				return c13Case{Center: []float64{10, 20}, Meters: m, Steps: steps, What: "out-of-domain radius"}
